@@ -1,11 +1,15 @@
 #![cfg(feature = "v1_local")]
 use std::marker::PhantomData;
-use aes::Aes256Ctr;
+use aes::Aes256;
 use aes::cipher::generic_array::GenericArray;
 use aes::cipher::{NewCipher, StreamCipher};
 use crate::core::common::cipher_text::CipherText;
 use crate::core::{Local, V1};
 use crate::core::common::EncryptionKey;
+
+// AES-256-CTR as the PASETO spec (and OpenSSL) define it: the whole 16 byte counter block is incremented as one
+// big-endian 128 bit integer (`aes::Aes256Ctr` only increments the low 64 bits and wraps without carry)
+type Aes256Ctr = ctr::Ctr128BE<Aes256>;
 
 impl CipherText<V1, Local> {
     pub(crate) fn from(payload: &[u8], encryption_key: &EncryptionKey<V1, Local>) -> Self {
